@@ -34,6 +34,24 @@ def weekdayOf (y m d : Nat) : Nat :=
 
 def sub2 (s : List Char) (i : Nat) : List Char := (s.drop i).take 2
 
+/-- "Parse the fractional second": `.` and at least one digit are consumed, anything else is left -/
+def skipFraction (rest : List Char) : List Char :=
+  match rest with
+  | '.' :: c :: r => if isDig c then r.dropWhile isDig else rest
+  | _ => rest
+
+/-- "Parse the time zone": the offset in seconds east of UTC -/
+def parseZone (rest : List Char) : Option Int :=
+  if rest == ['Z'] then some 0
+  else if rest.length != 6 then none
+  else do
+    let hr ← parseUint (sub2 rest 1) 0 23
+    let mm ← parseUint (sub2 rest 4) 0 59
+    if !((rest[0]? == some '-' || rest[0]? == some '+') && rest[3]? == some ':') then none
+    else
+      let off : Int := ((hr * 60 + mm) * 60 : Nat)
+      some (if rest[0]? == some '-' then -off else off)
+
 /-- `parseRFC3339` -/
 def goParseRFC3339 (s : List Char) : Option Time :=
   if s.length < 19 then none
@@ -45,21 +63,9 @@ def goParseRFC3339 (s : List Char) : Option Time :=
     let min ← parseUint (sub2 s 14) 0 59
     let sec ← parseUint (sub2 s 17) 0 59
     if !(s[4]? == some '-' && s[7]? == some '-' && s[10]? == some 'T' && s[13]? == some ':' && s[16]? == some ':') then none
-    else
-      let rest := s.drop 19
-      let rest := match rest with
-        | '.' :: c :: r => if isDig c then r.dropWhile isDig else rest
-        | _ => rest
-      let wd := weekdayOf year month day
-      if rest == ['Z'] then some ⟨year, month, day, wd, hour, min, sec, 0⟩
-      else if rest.length != 6 then none
-      else do
-        let hr ← parseUint (sub2 rest 1) 0 23
-        let mm ← parseUint (sub2 rest 4) 0 59
-        if !((rest[0]? == some '-' || rest[0]? == some '+') && rest[3]? == some ':') then none
-        else
-          let off : Int := ((hr * 60 + mm) * 60 : Nat)
-          some ⟨year, month, day, wd, hour, min, sec, if rest[0]? == some '-' then -off else off⟩
+    else do
+      let off ← parseZone (skipFraction (s.drop 19))
+      some ⟨year, month, day, weekdayOf year month day, hour, min, sec, off⟩
 
 /-- the library with the timestamp parser and the duration verdict transliterated as well -/
 def refLibTs (L : Lib) : Lib :=
